@@ -388,6 +388,9 @@ func vfC03rateConnWalk(cf *v.Conf, va *v.Variant, res *vfh.Result, file string, 
 				}
 			}
 		case "Bogus":
+			if ok, _ := led.Room(a); !modelSync || led.Live[a] > 0 || !ok {
+				break // the model's precondition (nothing held in a's buckets) is only known to hold while in step with the model
+			}
 			sut.cl.rmConn(va.Addr[a])
 			res.Case(fmt.Sprintf("%s|bogus|%s", cf.Inst, a))
 		default:
